@@ -8,13 +8,23 @@ every accessor is wrapped: {"ok": value} | {"exc": "<ExceptionType>"}  (accessor
 from vlib.core import T, opt
 
 
+def exc_name(e) -> str:
+    """exception CLASS as the properties see it: subclasses of ValueError (UnicodeError, idna.IDNAError, ...)
+    and of TypeError are reported under the documented base class, anything else under its own name"""
+    if isinstance(e, ValueError):
+        return "ValueError"
+    if isinstance(e, TypeError):
+        return "TypeError"
+    return type(e).__name__
+
+
 def safe(f):
     try:
         return {"ok": f()}
     except BaseException as e:  # noqa: BLE001 - the exception TYPE is the observation
         if isinstance(e, (KeyboardInterrupt, SystemExit)):
             raise
-        return {"exc": type(e).__name__}
+        return {"exc": exc_name(e)}
 
 
 TEXT = ["scheme", "raw_authority", "authority", "raw_path", "path", "path_safe", "raw_query_string", "query_string",
@@ -63,5 +73,5 @@ def outcome(f, fields=None):
     except BaseException as e:  # noqa: BLE001
         if isinstance(e, (KeyboardInterrupt, SystemExit)):
             raise
-        return {"exc": type(e).__name__}, None
+        return {"exc": exc_name(e)}, None
     return {"ok": obs(u, fields)}, u
